@@ -9,6 +9,8 @@ import (
 	"sort"
 	"strings"
 
+	"golang.org/x/tools/go/callgraph/cha"
+	"golang.org/x/tools/go/callgraph/vta"
 	"golang.org/x/tools/go/packages"
 	"golang.org/x/tools/go/ssa"
 	"golang.org/x/tools/go/ssa/ssautil"
@@ -30,6 +32,9 @@ type Prog struct {
 	byKey map[string]*ssa.Function
 
 	globalNN map[*ssa.Global]bool
+
+	// thorough tier: VTA call graph over the whole program (dynamic call sites resolved by value flow)
+	Dyn map[ssa.CallInstruction][]*ssa.Function
 }
 
 // LoadProg loads dir's ./... with default build tags (exactly what `go build ./...` compiles).
@@ -71,7 +76,45 @@ func LoadProg(dir, mod string, full bool) (*Prog, error) {
 		p.PPkgs[pkgs[i].PkgPath] = pkgs[i]
 	}
 	p.collectFuncs()
+	if full {
+		p.buildDyn()
+	}
 	return p, nil
+}
+
+// buildDyn resolves the dynamic call sites (interface invokes, calls of function values) of the
+// tree's functions with a VTA call graph seeded by CHA.
+func (p *Prog) buildDyn() {
+	all := ssautil.AllFunctions(p.SSA)
+	g := vta.CallGraph(all, cha.CallGraph(p.SSA))
+	p.Dyn = map[ssa.CallInstruction][]*ssa.Function{}
+	inTree := map[*ssa.Function]bool{}
+	for _, f := range p.Funcs {
+		inTree[f] = true
+	}
+	for fn, node := range g.Nodes {
+		if fn == nil || !inTree[fn] {
+			continue
+		}
+		for _, e := range node.Out {
+			if e.Site == nil || e.Callee == nil || e.Callee.Func == nil {
+				continue
+			}
+			cc := e.Site.Common()
+			if !cc.IsInvoke() {
+				if _, static := cc.Value.(*ssa.Function); static {
+					continue
+				}
+				if _, isClosure := cc.Value.(*ssa.MakeClosure); isClosure {
+					continue
+				}
+				if _, isBuiltin := cc.Value.(*ssa.Builtin); isBuiltin {
+					continue
+				}
+			}
+			p.Dyn[e.Site] = append(p.Dyn[e.Site], e.Callee.Func)
+		}
+	}
 }
 
 func (p *Prog) inTree(pkg *types.Package) bool {
